@@ -157,6 +157,7 @@ package hashgraph
 //@ ghost func (h *Hashgraph) viewOf() Store { return h.Store }
 
 //@ func (h *Hashgraph) initEventCoordinates(event *Event) error
+//@   noread Event.topologicalIndex, Event.roundReceived, Hashgraph.topologicalIndex
 //@   safety on
 //@   requires h != nil && event != nil && len(event.Body.Parents) == 2
 //@   modifies event.lastAncestors, event.firstDescendants, G_miss(h.Store)
@@ -187,6 +188,7 @@ package hashgraph
 //@ ghost func SelfAncRule(ex *Event, ey *Event) bool { return CreatorOf(ex) == CreatorOf(ey) && ex.Body.Index >= ey.Body.Index }
 
 //@ func (h *Hashgraph) _ancestor(x, y string) (bool, error)
+//@   noread Event.topologicalIndex, Event.roundReceived, Hashgraph.topologicalIndex
 //@   safety on
 //@   requires h != nil
 //@   modifies G_miss(h.Store)
@@ -196,6 +198,7 @@ package hashgraph
 //@   ensures[err]  ret1 != nil ==> !ret0
 
 //@ func (h *Hashgraph) _selfAncestor(x, y string) (bool, error)
+//@   noread Event.topologicalIndex, Event.roundReceived, Hashgraph.topologicalIndex
 //@   safety on
 //@   requires h != nil
 //@   modifies G_miss(h.Store)
@@ -211,6 +214,7 @@ package hashgraph
 //@ ghost func (h *Hashgraph) selfAncCacheOK() bool { return h.selfAncestorCache != nil && (forall x string, y string :: __in(interface{}(key{x, y}), common.G_m(h.selfAncestorCache)) ==> common.G_m(h.selfAncestorCache)[interface{}(key{x, y})] == interface{}(SelfAncV(h, x, y))) }
 
 //@ func (h *Hashgraph) ancestor(x, y string) (bool, error)
+//@   noread Event.topologicalIndex, Event.roundReceived, Hashgraph.topologicalIndex
 //@   safety on
 //@   requires h != nil && h.ancCacheOK()
 //@   assume[def] (x == y ==> AncV(h, x, y)) && (x != y && __in(x, G_events(h.Store)) && __in(y, G_events(h.Store)) ==> AncV(h, x, y) == AncRule(G_events(h.Store)[x], G_events(h.Store)[y]))
@@ -220,6 +224,7 @@ package hashgraph
 //@   ensures[memo]  h.ancCacheOK()
 
 //@ func (h *Hashgraph) selfAncestor(x, y string) (bool, error)
+//@   noread Event.topologicalIndex, Event.roundReceived, Hashgraph.topologicalIndex
 //@   safety on
 //@   requires h != nil && h.selfAncCacheOK()
 //@   assume[def] (x == y ==> SelfAncV(h, x, y)) && (x != y && __in(x, G_events(h.Store)) && __in(y, G_events(h.Store)) ==> SelfAncV(h, x, y) == SelfAncRule(G_events(h.Store)[x], G_events(h.Store)[y]))
@@ -234,6 +239,7 @@ package hashgraph
 //@ ghost func SSRule(ex *Event, ey *Event, ps *peers.PeerSet) bool { return 3*__count(ps.ByPubKey, func(p string) bool { return SSCond(ex, ey, p) }) > 2*len(ps.ByPubKey) }
 
 //@ func (h *Hashgraph) _stronglySee(x, y string, peers *peers.PeerSet) (bool, error)
+//@   noread Event.topologicalIndex, Event.roundReceived, Hashgraph.topologicalIndex
 //@   safety on
 //@   requires h != nil && peers != nil && peers.WF()
 //@   modifies G_miss(h.Store)
@@ -247,6 +253,7 @@ package hashgraph
 //@ ghost func (h *Hashgraph) ssCacheOK() bool { return h.stronglySeeCache != nil && (forall x string, y string, z string :: __in(interface{}(treKey{x, y, z}), common.G_m(h.stronglySeeCache)) ==> common.G_m(h.stronglySeeCache)[interface{}(treKey{x, y, z})] == interface{}(SSV(h, x, y, z))) }
 
 //@ func (h *Hashgraph) stronglySee(x, y string, peers *peers.PeerSet) (bool, error)
+//@   noread Event.topologicalIndex, Event.roundReceived, Hashgraph.topologicalIndex
 //@   safety on
 //@   requires h != nil && peers != nil && peers.WF() && h.ssCacheOK()
 //@   assume[def] __in(x, G_events(h.Store)) && __in(y, G_events(h.Store)) ==> SSV(h, x, y, PSHexOf(peers)) == SSRule(G_events(h.Store)[x], G_events(h.Store)[y], peers)
@@ -265,6 +272,7 @@ package hashgraph
 //@ ghost func (h *Hashgraph) roundCacheOK() bool { return h.roundCache != nil && (forall x string :: __in(interface{}(x), common.G_m(h.roundCache)) ==> common.G_m(h.roundCache)[interface{}(x)] == interface{}(RoundV(h, x))) }
 
 //@ func (h *Hashgraph) _round(x string) (int, error)
+//@   noread Event.topologicalIndex, Event.roundReceived, Hashgraph.topologicalIndex
 //@   safety on
 //@   requires h != nil && h.memoSep() && h.roundCacheOK() && h.ssCacheOK()
 //@   modifies common.G_m(h.roundCache), common.G_m(h.stronglySeeCache), G_miss(h.Store)
@@ -278,6 +286,7 @@ package hashgraph
 //@   loop 1 invariant[set]  __enumlemma(__ranged([]string(nil)), parentRoundObj.CreatedEvents, func(w string) bool { return parentRoundObj.CreatedEvents[w].Witness }, func(w string) bool { return SSV(h, x, w, PSHexOf(parentRoundPeerSet)) }, func(w string) bool { return parentRoundObj.CreatedEvents[w].Witness && SSV(h, x, w, PSHexOf(parentRoundPeerSet)) })
 
 //@ func (h *Hashgraph) round(x string) (int, error)
+//@   noread Event.topologicalIndex, Event.roundReceived, Hashgraph.topologicalIndex
 //@   safety on
 //@   requires h != nil && h.memoSep() && h.roundCacheOK() && h.ssCacheOK()
 //@   assume[def] __in(x, G_events(h.Store)) ==> RoundV(h, x) == RoundRule(h, x, G_events(h.Store)[x])
@@ -291,6 +300,7 @@ package hashgraph
 //@ ghost func (h *Hashgraph) witCacheOK() bool { return h.witnessCache != nil && (forall x string :: __in(interface{}(x), common.G_m(h.witnessCache)) ==> common.G_m(h.witnessCache)[interface{}(x)] == interface{}(WitV(h, x))) }
 
 //@ func (h *Hashgraph) _witness(x string) (bool, error)
+//@   noread Event.topologicalIndex, Event.roundReceived, Hashgraph.topologicalIndex
 //@   safety on
 //@   requires h != nil && h.memoSep() && h.roundCacheOK() && h.ssCacheOK()
 //@   modifies common.G_m(h.roundCache), common.G_m(h.stronglySeeCache), G_miss(h.Store)
@@ -299,6 +309,7 @@ package hashgraph
 //@   ensures[memo] h.roundCacheOK() && h.ssCacheOK()
 
 //@ func (h *Hashgraph) witness(x string) (bool, error)
+//@   noread Event.topologicalIndex, Event.roundReceived, Hashgraph.topologicalIndex
 //@   safety on
 //@   requires h != nil && h.memoSep() && h.roundCacheOK() && h.ssCacheOK() && h.witCacheOK()
 //@   assume[def] __in(x, G_events(h.Store)) ==> WitV(h, x) == WitRule(h, x, G_events(h.Store)[x])
@@ -321,6 +332,7 @@ package hashgraph
 //@ ghost func (h *Hashgraph) MemoOK() bool { return h.memoSep() && h.ancCacheOK() && h.selfAncCacheOK() && h.ssCacheOK() && h.roundCacheOK() && h.witCacheOK() && h.ltCacheOK() }
 
 //@ func (h *Hashgraph) _lamportTimestamp(x string) (int, error)
+//@   noread Event.topologicalIndex, Event.roundReceived, Hashgraph.topologicalIndex
 //@   safety on
 //@   requires h != nil && h.ltCacheOK()
 //@   modifies common.G_m(h.timestampCache), G_miss(h.Store)
@@ -331,6 +343,7 @@ package hashgraph
 //@   ensures[miss]   old(G_miss(h.Store)) ==> G_miss(h.Store)
 
 //@ func (h *Hashgraph) lamportTimestamp(x string) (int, error)
+//@   noread Event.topologicalIndex, Event.roundReceived, Hashgraph.topologicalIndex
 //@   safety on
 //@   requires h != nil && h.ltCacheOK()
 //@   assume[def] __in(x, G_events(h.Store)) ==> LTV(h, x) == LTRule(h, G_events(h.Store)[x])
@@ -340,6 +353,7 @@ package hashgraph
 //@   ensures[miss]  old(G_miss(h.Store)) ==> G_miss(h.Store)
 
 //@ func (h *Hashgraph) updateAncestorFirstDescendant(event *Event) error
+//@   noread Event.topologicalIndex, Event.roundReceived, Hashgraph.topologicalIndex
 //@   safety on
 //@   requires h != nil && event != nil && event.lastAncestors != nil && h.MemoOK()
 //@   modifies G_events(h.Store), G_fault(h.Store), G_miss(h.Store), anymap CoordinatesMap, common.G_m(h.witnessCache), common.G_m(h.roundCache), common.G_m(h.stronglySeeCache)
@@ -404,7 +418,7 @@ package hashgraph
 //@   ensures[wf]               peerSet.WF()
 //@   ensures[signed]           ret0 == nil ==> block.Signatures != nil
 //@   ensures[third]            ret0 == nil ==> SignedByMoreThanThird(block, peerSet)
-//@   loop 1 invariant[count]   counted != nil && __fresh(counted) && validSignatures == len(counted)
+//@   loop 1 invariant[count]   counted != nil && __fresh(counted) && validSignatures == len(counted) && validSignatures <= __idx()
 //@   loop 1 invariant[valid]   forall v string :: __in(v, counted) ==> counted[v] && __in(v, peerSet.ByPubKey) && (exists k string :: __in(k, block.Signatures) && v == common.Enc(common.KeyBytesOf(k)) && BlockSigOK(block, common.KeyBytesOf(k), block.Signatures[k]))
 
 // FrameHashOf: by definition, SHA256 of the canonical (sorted-key) encoding of the frame.
@@ -665,6 +679,7 @@ package hashgraph
 // createRoot: the root of a participant is its head event and up to ROOT_DEPTH of its predecessors by index, oldest
 // first; every element is the frame event of a stored event (so it carries the predicates' values).
 //@ func (h *Hashgraph) createRoot(participant string, head string) (*Root, error)
+//@   noread Event.topologicalIndex, Event.roundReceived, Hashgraph.topologicalIndex
 //@   safety on
 //@   requires h != nil && h.MemoOK()
 //@   modifies common.G_m(h.witnessCache), common.G_m(h.roundCache), common.G_m(h.stronglySeeCache), common.G_m(h.timestampCache), G_miss(h.Store)
@@ -680,6 +695,7 @@ package hashgraph
 //@   loop 2 invariant[ins]   -1 <= i && i < len(reverseRootEvents) && len(root.Events) == len(reverseRootEvents) - 1 - i && (forall k int :: 0 <= k && k < len(root.Events) ==> root.Events[k] == reverseRootEvents[len(reverseRootEvents)-1-k])
 
 //@ func (h *Hashgraph) createFrameEvent(x string) (*FrameEvent, error)
+//@   noread Event.topologicalIndex, Event.roundReceived, Hashgraph.topologicalIndex
 //@   safety on
 //@   requires h != nil && h.MemoOK()
 //@   modifies common.G_m(h.witnessCache), common.G_m(h.roundCache), common.G_m(h.stronglySeeCache), common.G_m(h.timestampCache), G_miss(h.Store)
@@ -694,6 +710,7 @@ package hashgraph
 //@ ghost func FELess(x *FrameEvent, y *FrameEvent) bool { return x.LamportTimestamp < y.LamportTimestamp || (x.LamportTimestamp == y.LamportTimestamp && SigR(x.Core.Signature) < SigR(y.Core.Signature)) }
 
 //@ func (a SortedFrameEvents) Less(i, j int) bool
+//@   noread Event.topologicalIndex, Event.roundReceived, Hashgraph.topologicalIndex
 //@   safety on
 //@   requires 0 <= i && i < len(a) && 0 <= j && j < len(a) && a[i] != nil && a[j] != nil && a[i].Core != nil && a[j].Core != nil && SigWF(a[i].Core.Signature) && SigWF(a[j].Core.Signature)
 //@   modifies nothing
@@ -708,6 +725,7 @@ package hashgraph
 //@ ghost func FW(r *RoundInfo, x string) bool { return __in(x, r.CreatedEvents) && r.CreatedEvents[x].Witness && r.CreatedEvents[x].Famous == common.True }
 
 //@ func (h *Hashgraph) GetFrame(roundReceived int) (*Frame, error)
+//@   noread Event.topologicalIndex, Event.roundReceived, Hashgraph.topologicalIndex
 //@   safety on
 //@   requires h != nil && h.MemoOK()
 //@   modifies common.G_m(h.witnessCache), common.G_m(h.roundCache), common.G_m(h.stronglySeeCache), common.G_m(h.timestampCache), G_frames(h.Store), G_fault(h.Store), G_miss(h.Store)
@@ -917,6 +935,7 @@ package hashgraph
 // round j's validator count, and to that side's value (yes on ties). A round enters decidedRounds only when
 // WitnessesDecided holds for it.
 //@ func (h *Hashgraph) DecideFame() error
+//@   noread Event.topologicalIndex, Event.roundReceived, Hashgraph.topologicalIndex
 //@   safety on
 //@   requires h != nil && h.PendingRounds != nil && h.PendingRounds.wf() && h.MemoOK()
 //@   ensures[memo]  h.MemoOK()
